@@ -245,6 +245,11 @@ def rule_conc(filter_names=None):
             tt = trusted_tiles().get(who)
             if tt is not None:
                 o.check(True, who, "tile-trusted", "")
+                for (ok_, sp_, msg_) in merge_partition_points(crate, root):
+                    if ok_ == "undecided":
+                        o.undecide(who, "merge-partition-points", msg_)
+                    else:
+                        o.check(ok_, who, "merge-partition-points", msg_, sp_)
                 continue
             if not tiles and any(_range_partition_worker(crate, wc) for (_, _, _, wc) in ws if wc):
                 o.check(False, who, "tile-template", "workers loop over a captured range start..end, but the way the ranges are "
@@ -706,6 +711,110 @@ def _chunk_def(crate, an, c):
 def _same_value(crate, an, a, b):
     fx = crate.fx(an.path)
     return a == b or fx.holds(0, lambda rel: rel.eq(a, b))
+
+
+def merge_partition_points(crate, root):
+    """[(ok, span, message)] for a trusted merge-path tiling (AdjacencyMap::union): the cut points handed to the partition search
+    are pushed in a loop over k in 0..=t as a closed form f(k, n, t) of the loop item, the combined row count n and the thread
+    count t = min(n, ..).  Whatever the search does with them, the workers cover all n rows only when f(0) = 0, f(t) = n and f
+    is non-decreasing; the extracted term is evaluated with unsigned integer arithmetic for 1 <= t <= n <= 40."""
+    an = crate.an(root)
+    fx = crate.fx(root)
+    out = []
+    for ev in an.events:
+        if not (ev["k"] == "call" and ev["key"] == "alloc::vec::Vec::push" and len(ev["args"]) == 2):
+            continue
+        val = ev["args"][1]
+        if val[0] != "bin":
+            continue
+        # the loop item this value is computed from, and the range it runs over
+        items = []
+
+        def walk(t):
+            if isinstance(t, tuple) and t:
+                if t[0] == "field" and len(t) == 3 and t[2] == "0" and t[1][0] == "dc" and t[1][2] == "Some" and t[1][1][0] == "site" \
+                        and t[1][1][2] == ITER_NEXT:
+                    items.append(t)
+                    return
+                for x in t:
+                    walk(x)
+        walk(val)
+        if len(set(items)) != 1:
+            continue
+        item = items[0]
+        nev = [e for e in an.events if e["k"] == "call" and e.get("res") == item[1][1]]
+        d = fx.iter_desc(nev[0]) if nev else None
+        if not (d and d[0] == "call" and d[1] == "core::ops::range::RangeInclusive::new" and len(d[3]) == 2 and const_is(d[3][0], 0)):
+            if d and d[0] == "call" and d[1].startswith("core::ops::range::Range") and _mentions_any(val, ("Div", "Mul")):
+                out.append(("undecided", ev["span"], "cut points are computed in a loop that is not `for k in 0..=t`"))
+            continue
+        T = d[3][1]
+        if not (T[0] == "min" and len(T) == 3):
+            out.append(("undecided", ev["span"], "the number of cut points is not min(n, thread count)"))
+            continue
+        Ns = [x for x in T[1:] if not _mentions_call(x, "core::result::Result::map_or")]
+        if len(Ns) != 1:
+            out.append(("undecided", ev["span"], "the number of cut points is not min(n, thread count)"))
+            continue
+        N = Ns[0]
+
+        def ev_(t, k, n, tc):
+            if t == item:
+                return k
+            if t == N:
+                return n
+            if t == T:
+                return tc
+            if t[0] == "const" and isinstance(t[2], int):
+                return t[2]
+            if t[0] == "call" and t[1] in ("core::num::div_ceil",) and len(t[3]) == 2:
+                a, b = ev_(t[3][0], k, n, tc), ev_(t[3][1], k, n, tc)
+                return None if a is None or not b else -(-a // b)
+            if t[0] == "min" and len(t) == 3:
+                a, b = ev_(t[1], k, n, tc), ev_(t[2], k, n, tc)
+                return None if a is None or b is None else min(a, b)
+            if t[0] == "bin":
+                a, b = ev_(t[2], k, n, tc), ev_(t[3], k, n, tc)
+                if a is None or b is None:
+                    return None
+                op = t[1]
+                if op == "Add":
+                    return a + b
+                if op == "Sub":
+                    return a - b if a >= b else None
+                if op == "Mul":
+                    return a * b
+                if op == "Div":
+                    return a // b if b else None
+                if op == "Rem":
+                    return a % b if b else None
+            return None
+        if ev_(val, 1, 3, 2) is None:
+            out.append(("undecided", ev["span"], "the cut points are not a closed form of the loop item, the row count and the thread count"))
+            continue
+        bad = None
+        for n in range(1, 41):
+            for tc in range(1, n + 1):
+                f = [ev_(val, k, n, tc) for k in range(tc + 1)]
+                if None in f or f[0] != 0 or f[-1] != n or any(a > b for a, b in zip(f, f[1:])):
+                    bad = (n, tc, f)
+                    break
+            if bad:
+                break
+        out.append((bad is None, ev["span"], "the cut points of the merge do not run from 0 to the combined row count n in non-decreasing "
+                    "steps (n = %s rows on t = %s workers gives %s): rows beyond the last cut point are merged by no worker and vanish "
+                    "from the result for some thread counts" % (bad if bad else ("-", "-", "-"))))
+    if not out:
+        out.append(("undecided", None, "no cut points of the form f(k, n, t) pushed in a loop over 0..=t were found"))
+    return out
+
+
+def _mentions_any(t, ops):
+    return isinstance(t, tuple) and bool(t) and ((t[0] == "bin" and t[1] in ops) or any(_mentions_any(x, ops) for x in t))
+
+
+def _mentions_call(t, key):
+    return isinstance(t, tuple) and bool(t) and ((t[0] == "call" and t[1] == key) or any(_mentions_call(x, key) for x in t))
 
 
 def trusted_tiles():
